@@ -183,11 +183,24 @@ func vendingCase(r *vk.Run, idx int) {
 	}
 	t.config = fmt.Sprintf("WithInitialStock(%v) WithInitialConsumable(%v)", ref, sortedKeys(consumableNames))
 	var opts []resource.Option
+	// the same configuration given in one option or split over several (the options add up)
+	split := rng.Chance(1, 3)
 	if len(stocks) > 0 {
-		opts = append(opts, vendingpb.WithInitialStock(stocks...))
+		if split && len(stocks) > 1 {
+			k := rng.Range(1, len(stocks)-1)
+			opts = append(opts, vendingpb.WithInitialStock(stocks[:k]...), vendingpb.WithInitialStock(stocks[k:]...))
+			r.Count("vending/configs-with-stock-split-over-two-options", 1)
+		} else {
+			opts = append(opts, vendingpb.WithInitialStock(stocks...))
+		}
 	}
 	if len(consumables) > 0 {
-		opts = append(opts, vendingpb.WithInitialConsumable(consumables...))
+		if split && len(consumables) > 1 {
+			k := rng.Range(1, len(consumables)-1)
+			opts = append(opts, vendingpb.WithInitialConsumable(consumables[:k]...), vendingpb.WithInitialConsumable(consumables[k:]...))
+		} else {
+			opts = append(opts, vendingpb.WithInitialConsumable(consumables...))
+		}
 		r.Count("vending/configs-with-initial-consumables", 1)
 	}
 	if rng.Bool() { // order of options must not matter
